@@ -1,6 +1,7 @@
 package main
 
 import (
+	"encoding/binary"
 	"encoding/pem"
 	"crypto/x509"
 	crand "crypto/rand"
@@ -253,6 +254,13 @@ func c14Seeds(rng *rand.Rand) map[string][][]byte {
 	add("pem", pem.EncodeToMemory(&pem.Block{Type: "RSA PRIVATE KEY", Bytes: x509.MarshalPKCS1PrivateKey(rk)}))
 	add("pem", pem.EncodeToMemory(&pem.Block{Type: "CERTIFICATE", Bytes: simpleCert(rk, "pem cert", 1).Raw}))
 	add("pem", pem.EncodeToMemory(&pem.Block{Type: "PRIVATE KEY", Bytes: []byte{0x30, 0x00}}))
+	// files holding several blocks: parameters, a key, then the certificate (and the other way round)
+	params := pem.EncodeToMemory(&pem.Block{Type: "EC PARAMETERS", Bytes: []byte{0x06, 0x08, 0x2a, 0x86, 0x48, 0xce, 0x3d, 0x03, 0x01, 0x07}})
+	keyBlk := pem.EncodeToMemory(&pem.Block{Type: "RSA PRIVATE KEY", Bytes: x509.MarshalPKCS1PrivateKey(rk)})
+	certBlk := pem.EncodeToMemory(&pem.Block{Type: "CERTIFICATE", Bytes: simpleCert(rk, "pem cert", 1).Raw})
+	add("pem", append(append(append([]byte{}, params...), keyBlk...), certBlk...))
+	add("pem", append(append(append([]byte{}, certBlk...), keyBlk...), params...))
+	add("pem", append(append([]byte{}, params...), params...))
 	return seeds
 }
 
@@ -369,6 +377,27 @@ func runC14(c *Ctx) {
 		}
 		return m
 	}())
+	// a list with more than a hundred thousand distinct entries: decoding must stay proportional to its size
+	{
+		cnt := 120000
+		big := make([]byte, 28, 28+48*cnt)
+		var tb bytes.Buffer
+		binary.Write(&tb, binary.LittleEndian, signature.CERT_SHA256_GUID)
+		copy(big, tb.Bytes())
+		binary.LittleEndian.PutUint32(big[16:], uint32(28+48*cnt))
+		binary.LittleEndian.PutUint32(big[24:], 48)
+		for i := 0; i < cnt; i++ {
+			e := make([]byte, 48)
+			binary.LittleEndian.PutUint32(e[16:], uint32(i))
+			rng.Read(e[20:])
+			big = append(big, e...)
+		}
+		for _, entry := range []string{"sigdb.ReadSignatureDatabase", "sigdb.Unmarshal", "sigdb.ReadSignatureList"} {
+			if _, ok := c14Entries[entry]; ok {
+				eval(entry, big, "many-thousand-entries")
+			}
+		}
+	}
 	perEntry := c.N(220, 45000)
 	for _, entry := range names {
 		var pool [][]byte
